@@ -20,10 +20,10 @@ func All() map[string]orch.PropertySpec {
 	return map[string]orch.PropertySpec{
 		"C01": {ID: "C01", Level: "model_checking", Assumptions: trusted,
 			Rule:  "cases are the attacker documents TLC enumerates from spec/Forgery.tla (root signature state x root ID x up to two kids with content, signature state, placement, encryption, ID collision) under signature checking and skip mode; each is made concrete (real XML, RSA signatures, XML-Enc, optional DEFLATE) and replayed; distinct = distinct abstract (cfg,input); every one is non-trivial (it reaches signature processing)",
-			Parts: []orch.Part{{Family: fam.Forgery{}, Monitors: []string{"C01"}}}},
+			Parts: []orch.Part{{Family: fam.Forgery{}, Monitors: []string{"C01"}}, {Family: fam.Xmlenc{}, Monitors: []string{"C01"}}, {Family: fam.Reconf{}, Monitors: []string{"C01"}}}},
 		"C02": {ID: "C02", Level: "model_checking", Assumptions: trusted,
 			Rule: "cases are all combinations TLC enumerates from spec/Trust.tla: message kind (SSO root-signed, SSO assertion-signed, LogoutRequest, LogoutResponse) x signing key (trusted A, trusted B, untrusted) x certificate shown (A, B, untrusted, none) x store composition (0..2 certificates) x SP clock relative to the staggered certificate windows x altered content, plus the root-signature states of spec/Forgery.tla; every case is replayed; non-trivial = a signature is present or the store is non-empty",
-			Parts: []orch.Part{{Family: fam.Trust{}, Monitors: []string{"C02"}}, {Family: fam.Forgery{}, Monitors: []string{"C02"}}}},
+			Parts: []orch.Part{{Family: fam.Trust{}, Monitors: []string{"C02"}}, {Family: fam.Forgery{}, Monitors: []string{"C02"}}, {Family: fam.Reconf{}, Monitors: []string{"C02"}}}},
 		"C03": {ID: "C03", Level: "model_checking", Assumptions: trusted,
 			Rule: "cases are all documents TLC enumerates from spec/Profile.tla: the all-correct Response with 0..3 assertions and every set of at most two deviations from a 43-entry fault catalogue (root: Version, Destination, Issuer, Status; per assertion position: Issuer, Subject, SubjectConfirmation, Method, SubjectConfirmationData, Recipient, NotOnOrAfter), signed by the simulated IdP at the Response or at every assertion, or unsigned in skip mode, with and without a configured issuer; all replayed through ValidateEncodedResponse and RetrieveAssertionInfo; non-trivial = every case (each reaches profile validation)",
 			Parts: []orch.Part{{Family: fam.Profile{}, Monitors: []string{"C03"}}, {Family: fam.Time{}, Monitors: []string{"C03"}}}},
@@ -35,13 +35,13 @@ func All() map[string]orch.PropertySpec {
 			Parts: []orch.Part{{Family: fam.Cond{}, Monitors: []string{"C06"}}}},
 		"C10": {ID: "C10", Level: "model_checking", Assumptions: trusted,
 			Rule: "cases are the full product TLC enumerates from spec/Logout.tla: LogoutRequest / LogoutResponse x Version ok/absent/wrong x Destination ok/absent/other x Issuer ok/absent/other x Status ok/absent/no code/non-success x signing state (unsigned, trusted, untrusted, tampered, genuine message wrapped in an unsigned outer one with a different / the same ID, signature relocated into a wrapper) x signature checking on/off x issuer configured or not, plus kind confusion (each of SSO Response, LogoutRequest, LogoutResponse given to each other validator), plus the logout kinds of spec/Trust.tla; all replayed, raw or DEFLATE by seed; non-trivial = every case",
-			Parts: []orch.Part{{Family: fam.Logout{}, Monitors: []string{"C10"}}, {Family: fam.Trust{}, Monitors: []string{"C10"}}}},
+			Parts: []orch.Part{{Family: fam.Logout{}, Monitors: []string{"C10"}}, {Family: fam.Trust{}, Monitors: []string{"C10"}}, {Family: fam.Reconf{}, Monitors: []string{"C10"}}}},
 		"C04": {ID: "C04", Level: "model_checking", Assumptions: trusted,
 			Rule: "cases are the attacker documents of spec/Forgery.tla (signature-checking and skip mode), the signer/store/clock matrix of spec/Trust.tla for all four inbound kinds and the signing states of spec/Logout.tla; each replayed against the real code, flags of the Response, of every assertion, of the assertion-info summary and of logout messages projected; non-trivial = every case",
 			Parts: []orch.Part{{Family: fam.Forgery{}, Monitors: []string{"C04"}}, {Family: fam.Trust{}, Monitors: []string{"C04"}}, {Family: fam.Logout{}, Monitors: []string{"C04"}}}},
 		"C07": {ID: "C07", Level: "model_checking", Assumptions: trusted,
 			Rule: "cases are (a) every attacker document of spec/Forgery.tla with encrypted kids (forged / unsigned / re-signed plaintext encrypted to the SP certificate, in direct, wrapped and nested positions) and (b) the binding sub-space of spec/Xmlenc.tla: recipient certificate absent/match/mismatch x certificate-validation option x SP clock against the SP certificate window (edges included) x certificate form valid/empty/garbage x signed or unsigned Response x inline/detached key; all replayed; non-trivial = every case",
-			Parts: []orch.Part{{Family: fam.Forgery{}, Monitors: []string{"C07"}}, {Family: fam.Xmlenc{}, Monitors: []string{"C07", "C01"}}}},
+			Parts: []orch.Part{{Family: fam.Forgery{}, Monitors: []string{"C07"}}, {Family: fam.Xmlenc{}, Monitors: []string{"C07", "C01"}}, {Family: fam.Reconf{}, Monitors: []string{"C07"}}}},
 		"C11": {ID: "C11", Level: "model_checking", Assumptions: append([]string{"for a declared OAEP digest the sender uses the same hash for MGF1 (the only reading under which the exported digest identifiers are usable with this library)"}, trusted...),
 			Rule: "cases are the round-trip sub-spaces of spec/Xmlenc.tla: every advertised data algorithm x {OAEP-MGF1P, OAEP 1.1} x {no digest, each exported digest identifier} and PKCS#1 v1.5 x inline/detached EncryptedKey x recipient certificate absent/matching x SP key supplied by key-store field (TLS store or plain store), by the setter, or both (same or different keys), each compared with its plaintext twin; plus DecryptBytes on random plaintexts of every length residue modulo 16, with and without trailing zero bytes; all replayed; non-trivial = every case",
 			Parts: []orch.Part{{Family: fam.Xmlenc{}, Monitors: []string{"C11"}}}},
@@ -79,7 +79,7 @@ func All() map[string]orch.PropertySpec {
 		"C17": {ID: "C17", Level: "model_checking", Assumptions: append([]string{"interleavings are controlled at the six observation points of SigningContext() (build tag verif); code between two points runs atomically with respect to the other controlled goroutines"}, trusted...),
 			Rule: "(a) TLC explores every interleaving of N goroutines x K calls of the PlusCal algorithm spec/SigningCtx.tla (quick 2x2, thorough 3x1) with mutual-exclusion, race-freedom, configured-before-visible and termination properties, and emits every complete schedule; each schedule is forced through the real SigningContext() with blocking gates while the goroutines run real signing operations (SigningContext, signed AuthnRequest / LogoutRequest / LogoutResponse); every result is checked against what the call returns alone (signature analysed independently); the observed event sequence is validated step by step against the algorithm by TLC; (b) every operation history of length <= 3 (quick) / 4 (thorough) over 10 public operations plus mutation of the previous result (spec/SpLife.tla) is replayed on one SP: configuration fingerprint before/after each call, result compared with the same call on a fresh SP; (c) a race-detector build runs sleep-slot-steered first-use schedules and an ungated mix of all public operations; distinct = distinct schedules / histories; non-trivial = every one",
 			Custom: []orch.CustomStep{orch.RaceStep},
-			Parts:  []orch.Part{{Family: fam.SigningCtx{}, Monitors: []string{"C17"}}, {Family: fam.SpLife{}, Monitors: []string{"C17"}}}},
+			Parts:  []orch.Part{{Family: fam.SigningCtx{}, Monitors: []string{"C17"}}, {Family: fam.SpLife{}, Monitors: []string{"C17"}}, {Family: fam.Reconf{}, Monitors: []string{"C17"}}}},
 	}
 }
 
